@@ -19,6 +19,7 @@ type N struct {
 	Pre  bool   // incr: prefix
 	S    string // literal text / variable or array name
 	Kids []*N   // operands; getline: [cmd target file] with nils
+	Raw  bool   // never parenthesised (array-name and regex arguments of built-in calls)
 }
 
 // ---- canonical S-expression of a tree (the format of parser.VerifC04ParseOnly) ----
@@ -243,6 +244,10 @@ func (p *printer) list(out *[]string, kids []*N) {
 
 // operand: child c in a slot requiring level req; exposed = not enclosed by any bracket so far
 func (p *printer) expr(out *[]string, c *N, req int, exposed bool) {
+	if c.Raw {
+		p.node(out, c, false)
+		return
+	}
 	paren := false
 	switch {
 	case p.none:
@@ -445,7 +450,7 @@ func wf(n *N) bool {
 			}
 		}
 	}
-	if n.K != "binary" {
+	if n.K != "binary" && n.K != "call" {
 		for _, k := range n.Kids {
 			if k != nil && k.K == "strregex" {
 				return false
